@@ -6,7 +6,7 @@ import types
 import z3
 
 from . import values as V
-from .values import Unsupported, SInt, SBool, SBytes, SBuf, SZeros, SOpaque, SStr, is_sym, contains_sym
+from .values import Unsupported, SInt, SBool, SBytes, SBuf, SMBuf, SZeros, SOpaque, SStr, is_sym, contains_sym
 
 
 def _mk_bytes(I, args, mutable):
@@ -71,7 +71,7 @@ def _len(I, a):
     a = I.ctx.resolve(a)
     if isinstance(a, SBytes):
         return len(a.cells)
-    if isinstance(a, (SBuf, SZeros)):
+    if isinstance(a, (SBuf, SZeros, SMBuf)):
         return I.ctx.resolve(a.n)
     if isinstance(a, SStr):
         return SInt(z3.Length(a.e), 0, None)
@@ -125,7 +125,7 @@ def _isinstance(I, obj, cls):
         return any(c in (bool, int, object) for c in cl)
     if isinstance(obj, (SBytes,)):
         return any(c in ((bytearray, object) if obj.mutable else (bytes, object)) for c in cl)
-    if isinstance(obj, (SZeros,)):
+    if isinstance(obj, (SZeros, SMBuf)):
         return any(c in (bytearray, object) for c in cl)
     if isinstance(obj, SBuf):
         return any(c in (bytearray, bytes, object) for c in cl)
